@@ -212,6 +212,11 @@ impl SimStream {
 
 impl Drop for SimStream {
     fn drop(&mut self) {
+        if std::thread::panicking() || crate::sched::execution_dead() {
+            // the run is already a failure; touching scheduler-owned primitives while unwinding
+            // would turn it into an abort
+            return;
+        }
         let mut w = self.net.lock();
         let id = self.id;
         let c = &mut w.conns[id];
@@ -727,6 +732,9 @@ pub fn client_pair(net: &NetRef, id: usize) -> (ClientEnd, ClientEnd) {
 
 impl Drop for ClientEnd {
     fn drop(&mut self) {
+        if std::thread::panicking() || crate::sched::execution_dead() {
+            return;
+        }
         let left = self.handles.fetch_sub(1, std::sync::atomic::Ordering::SeqCst) - 1;
         let mut w = self.net.lock();
         let id = self.id;
